@@ -527,6 +527,12 @@ func (rm *relayManager) handleCreateRelayRequest(v cert.Version, h *HostInfo, f 
 		if !rm.GetAmRelay() {
 			return
 		}
+		// Only the host that wants to be relayed can ask for it. Without this an authenticated third party could
+		// name somebody else as relayFrom and reset or create that host's relay state towards the target.
+		if !slices.Contains(h.vpnAddrs, from) {
+			logMsg.Error("Discarding relay request, relayFrom is not an address of the requesting host")
+			return
+		}
 		peer := rm.hostmap.QueryVpnAddr(target)
 		if peer == nil {
 			// Try to establish a connection to this host. If we get a future relay request,
